@@ -176,8 +176,11 @@ def write_replay(pid, name, body):
 
 
 def write_evidence(pid, ev):
-    os.makedirs(os.path.join(ROOT, "evidence"), exist_ok=True)
-    with open(os.path.join(ROOT, "evidence", pid + ".json"), "w") as f:
+    # evidence is only ever written by runs against /repo itself; development runs against a
+    # scratch worktree (VERIF_REPO) leave it under work/
+    d = os.path.join(ROOT, "evidence") if REPO == "/repo" else os.path.join(WORK, "evidence-alt")
+    os.makedirs(d, exist_ok=True)
+    with open(os.path.join(d, pid + ".json"), "w") as f:
         json.dump(ev, f, indent=1)
 
 
